@@ -1,7 +1,7 @@
 (** C12 — malformed AML is rejected with an error, never a crash, hang or stray pointer.
     Statements only; every proof is [exact <lemma>] (Aml/LexProofs.v). *)
 From Coq Require Import NArith List.
-From FF Require Import Lib.Word Gen.Consts_device_acpi_aml Aml.Stream Aml.Lex Aml.LexProofs Aml.Tree Aml.TreeSpec Aml.Parser Aml.ParserProofs Aml.ParserProofsTop.
+From FF Require Import Lib.Word Gen.Consts_device_acpi_aml Aml.Stream Aml.Lex Aml.LexProofs Aml.Tree Aml.TreeSpec Aml.Parser Aml.ParserProofs Aml.ParserProofsTop Aml.ParserTotalFirst.
 Import ListNotations.
 Local Open Scope N_scope.
 
@@ -71,3 +71,68 @@ Print Assumptions C12_parse_total_partial_reader.
 Theorem C12_bytelist_inside : forall tbls obj dataLen, hoare tbls (parseByteList obj dataLen) (fun _ => True).
 Proof. exact hoare_parseByteList. Qed.
 Print Assumptions C12_bytelist_inside.
+
+(** ---- no panic, tree relation and fuel for the FIRST PASS ---- *)
+
+(** [parse_total_partial] (3), passes covered: the first pass only, i.e. everything ParseAML runs before
+    connectNamedObjArgs: scopeEnter(0) and parseObjectList with parseNextObject, parseObjectArgs, parseArgs, parseArg,
+    parseNamePathOrMethodCall, parseSimpleArg, parseTarget, parseFieldElements, parseByteList and the scope / pkgEnd
+    stacks, in parseModeSkipAmbiguousBlocks (the mode of the first pass).
+    From the initial parser state of ANY table image [data] (bytes, at least 256 MiB + 1 KiB below 4 GiB) over ANY pool
+    [tree] that represents a forest [g] (C13's relation [R]) in which slot 0 (the root scope) is live, whose live
+    objects carry opcode-table indexes inside pOpcodeTable, and that leaves room for 4 objects per byte of the table
+    below the uint32 object-index sentinel: the first pass NEVER PANICS, for every fuel - no nil dereference
+    (ObjectAt / scopeCurrent / parent lookups), no failed type assertion (.value.(uint64) of the field flags), no index
+    outside the pool, pOpcodeTable, the opcode maps or the scope stack, no pop of an empty stack.
+    Not covered: connectNamedObjArgs and all later passes (they rely on the same invariant, which
+    [C12_parse_total_partial_R_first_pass] shows the first pass re-establishes). *)
+Theorem C12_parse_total_partial_nopanic_first_pass :
+  forall (tree : ObjectTree value) (g : ghost) (earlier : list (list N)) (handle : N) (data : list N) (fuel : nat),
+    R tree g ->
+    (forall i o, TreeSpec.get tree i = Some o -> o_opcode o <> opFreed -> opInfo (o_infoIndex o) <> None) ->
+    glive g 0 ->
+    Forall (fun b => b < 256) data -> N.of_nat (length data) + 0x10000400 <= two32 ->
+    N.of_nat (length (t_pool tree)) + 4 * N.of_nat (length data) + 4 <= InvalidIndex ->
+    (scopeEnter 0 ;;; parseObjectList fuel) (init_state tree earlier handle data) <> Panic.
+Proof. exact first_pass_nopanic. Qed.
+Print Assumptions C12_parse_total_partial_nopanic_first_pass.
+
+(** [parse_total_partial] (4), tree relation: under the same hypotheses, whenever the first pass returns (object list
+    parsed or parse error) the pool again represents a forest - C13's [R] for some [g'], obtained edit by edit from
+    C13's append_R / appendAfter_R / newObject_R - and every live object still has its opcode-table index inside
+    pOpcodeTable.  (The forest only grows during the first pass: objects stay live, an existing object never gets a new
+    parent, child lists only get longer; that is how the legality of every append - the new child is a root and not
+    an ancestor of its new parent - is discharged.) *)
+Theorem C12_parse_total_partial_R_first_pass :
+  forall (tree : ObjectTree value) (g : ghost) (earlier : list (list N)) (handle : N) (data : list N) (fuel : nat) res s',
+    R tree g ->
+    (forall i o, TreeSpec.get tree i = Some o -> o_opcode o <> opFreed -> opInfo (o_infoIndex o) <> None) ->
+    glive g 0 ->
+    Forall (fun b => b < 256) data -> N.of_nat (length data) + 0x10000400 <= two32 ->
+    N.of_nat (length (t_pool tree)) + 4 * N.of_nat (length data) + 4 <= InvalidIndex ->
+    (scopeEnter 0 ;;; parseObjectList fuel) (init_state tree earlier handle data) = Ok (res, s') ->
+    exists g', R (p_tree s') g' /\
+      (forall i o, TreeSpec.get (p_tree s') i = Some o -> o_opcode o <> opFreed -> opInfo (o_infoIndex o) <> None).
+Proof. exact first_pass_R. Qed.
+Print Assumptions C12_parse_total_partial_R_first_pass.
+
+(** [parse_total_partial] (5), fuel: in any state that satisfies the invariant of the first pass (spelled out: [R],
+    opcode-table indexes valid, reader invariant, table below 4 GiB - 256 MiB - 1 KiB, offset inside the table, skip
+    mode, live scope stack, room for the objects) parsing one object (parseNextObject, with everything below it) and the
+    inner loop of parseObjectList (objects up to the end of the current package) return - neither a panic nor exhausted
+    fuel - as soon as the fuel is 16 units per byte left in the table plus 3: every level of recursion and every loop
+    iteration is paid for by a consumed byte (the lexer functions, layer 2, need no fuel argument at all:
+    [C12_reader_safe]).  Not covered: the outer loop of parseObjectList (one iteration per entry of the pkgEnd stack;
+    it terminates only if the scope stack is never deeper than the pkgEnd stack, which is not proved here). *)
+Theorem C12_parse_total_partial_fuel_first_pass :
+  forall (fuel : nat) (s : pstate) (g : ghost),
+    R (p_tree s) g ->
+    (forall i o, TreeSpec.get (p_tree s) i = Some o -> o_opcode o <> opFreed -> opInfo (o_infoIndex o) <> None) ->
+    reader_wf (p_r s) -> r_len (p_r s) + 0x10000400 <= two32 -> r_offset (p_r s) <= r_len (p_r s) ->
+    p_allBlocks s = false -> Forall (glive g) (p_scopeStack s) -> p_scopeStack s <> [] ->
+    N.of_nat (length (t_pool (p_tree s))) + 4 * (r_len (p_r s) - r_offset (p_r s)) + 4 <= InvalidIndex ->
+    16 * (r_len (p_r s) - r_offset (p_r s)) + 3 <= N.of_nat fuel ->
+    (exists res s' g', parseNextObject fuel s = Ok (res, s') /\ R (p_tree s') g') /\
+    (exists ok s' g', objectList_inner fuel s = Ok (ok, s') /\ R (p_tree s') g').
+Proof. exact first_pass_fuel. Qed.
+Print Assumptions C12_parse_total_partial_fuel_first_pass.
